@@ -37,19 +37,27 @@ Record outcome := mkout {
   joined : list bool;              (* per worker: p.join() was called *)
   shared : list (list path) }.     (* blocks in the manager list when it is copied *)
 
+(* when is self.timed_out set in the `while ... else:` branch?
+   FlagOnExhaustion: unconditionally, as the first statement of the branch (the code as shipped);
+   FlagOnKill: inside `if p.is_alive():`, i.e. only when a live worker is actually killed
+   (patches/C19-fix-flag-only-when-a-worker-is-killed.diff).  checks/c19.py reads the rule off the source. *)
+Inductive flag_rule := FlagOnExhaustion | FlagOnKill.
+Definition flag_at (rule : flag_rule) (ws : list worker) (now : Z) : bool :=
+  match rule with FlagOnExhaustion => true | FlagOnKill => any_alive ws now end.
+
 Definition all_false (ws : list worker) : list bool := map (fun _ => false) ws.
 Definition all_true (ws : list worker) : list bool := map (fun _ => true) ws.
 
-Fixpoint poll (fuel : nat) (clk : nat -> Z) (T : Z) (ws : list worker) (i : nat) : outcome :=
+Fixpoint poll (rule : flag_rule) (fuel : nat) (clk : nat -> Z) (T : Z) (ws : list worker) (i : nat) : outcome :=
   match fuel with
   | O => mkout OutOfFuel i false [] [] []
   | S f =>
       let now := clk i in
       if now - clk 0%nat <=? T then                             (* while time.time() - start_time <= timeout: *)
-        if any_alive ws now then poll f clk T ws (S i)        (*   if any(p.is_alive() ...): time.sleep(0.2) *)
+        if any_alive ws now then poll rule f clk T ws (S i)        (*   if any(p.is_alive() ...): time.sleep(0.2) *)
         else mkout ExitAllDone i false (all_false ws) (all_true ws) (flat_map all_blocks ws)  (* join; break *)
-      else                                                    (* else: timed_out = True; kill live ones; join *)
-        mkout ExitDeadline i true (map (fun w => alive w now) ws) (all_true ws)
+      else                                                    (* else: [timed_out = True;] kill live ones [timed_out = True]; join *)
+        mkout ExitDeadline i (flag_at rule ws now) (map (fun w => alive w now) ws) (all_true ws)
               (flat_map (fun w => delivered w now) ws)
   end.
 
@@ -57,20 +65,20 @@ Definition fuel_for (T step : Z) : nat := Z.to_nat (T / step) + 2.
 Definition terminates (w : worker) : bool := match w_fin w with Some _ => true | None => false end.
 
 (* the parallel branch; step = the sleep between two polls (0.2 s) *)
-Definition run_parallel (clk : nat -> Z) (step T : Z) (ws : list worker) : outcome :=
+Definition run_parallel (rule : flag_rule) (clk : nat -> Z) (step T : Z) (ws : list worker) : outcome :=
   if T =? -1 then
     if forallb terminates ws
     then mkout ExitUntimed 0 false (all_false ws) (all_true ws) (flat_map all_blocks ws)
     else mkout Hangs 0 false [] [] []
-  else poll (fuel_for T step) clk T ws 1.
+  else poll rule (fuel_for T step) clk T ws 1.
 
 (* check_for_loopcarried_dep as a whole: (timed_out, wall time spent in the search, blocks found).
    Below the threshold the search runs in the calling process for as long as it takes (seq_work)
    and never looks at the timeout. *)
-Definition analyse (threshold klen : Z) (clk : nat -> Z) (step T : Z) (ws : list worker) (seq_work : Z)
+Definition analyse (rule : flag_rule) (threshold klen : Z) (clk : nat -> Z) (step T : Z) (ws : list worker) (seq_work : Z)
   : bool * Z * list (list path) :=
   if threshold <=? klen then
-    let o := run_parallel clk step T ws in (timed_out o, clk (exit_poll o) - clk 0%nat, shared o)
+    let o := run_parallel rule clk step T ws in (timed_out o, clk (exit_poll o) - clk 0%nat, shared o)
   else (false, seq_work, flat_map all_blocks ws).
 
 (* a clock that advances: at least `step` between two polls *)
